@@ -1,12 +1,164 @@
-//! C03 probe (temporary)
+//! C03: replay the vectors enumerated by TLC (spec/gen/Gen_FieldCodec.tla) through
+//! `Message::try_from` + `serde_json`, and record what the decoder reported.
+//!
+//! No oracle here.  A vector tells the harness which frame to assemble (`f`: list of
+//! (width, value) fields, `ov`: parity overlay) and which decoded values to read back
+//! (`obs`: [name, JSON path, kind, scale]).  Every observation is logged as `[tag, x]`:
+//! 0 absent/null, 1 number (round(value * scale)), 2 text (character codes), 3 boolean,
+//! 4 anything else (non-finite, out of range, composite).  The trace specification
+//! (spec/trace/Trace_FieldCodec.tla) recomputes the expected values from the codes `c`.
+//!
+//!   c03 run <vectors.ndjson> <trace.ndjson>
+//!   c03 probe <hex> ...        (decode frames and print the JSON, for replay files)
+use rs1090::decode::bds::bds09::AirborneVelocitySubType;
+use rs1090::decode::{Message, DF};
 use rs1090::prelude::*;
-fn main() {
-    let args: Vec<String> = std::env::args().skip(1).collect();
-    for h in &args[1..] {
-        let bytes = hex::decode(h).unwrap();
-        match Message::try_from(bytes.as_slice()) {
-            Ok(m) => println!("{} {}", h, serde_json::to_string(&m).unwrap_or_else(|e| format!("SERDE-ERR {e}"))),
-            Err(e) => println!("{} ERR {}", h, e),
+use rsdriver::*;
+use serde_json::{json, Map, Value};
+use std::panic::catch_unwind;
+
+fn number(x: f64, scale: f64) -> Value {
+    if !x.is_finite() {
+        return json!([4, 0]);
+    }
+    let y = (x * scale).round();
+    if y.abs() >= 1.0e9 {
+        return json!([4, 0]);
+    }
+    json!([1, y as i64])
+}
+
+fn observe_json(js: &Value, path: &[Value], kind: &str, scale: f64) -> Value {
+    let mut cur = js;
+    for p in path {
+        match cur.get(p.as_str().unwrap_or("")) {
+            Some(v) => cur = v,
+            None => return if kind == "has" { json!([3, 0]) } else { json!([0, 0]) },
         }
+    }
+    if kind == "has" {
+        return if cur.is_null() { json!([3, 0]) } else { json!([3, 1]) };
+    }
+    match cur {
+        Value::Null => json!([0, 0]),
+        Value::Bool(b) => json!([3, if *b { 1 } else { 0 }]),
+        Value::Number(n) => match n.as_f64() {
+            Some(x) => number(x, scale),
+            None => json!([4, 0]),
+        },
+        Value::String(s) => json!([2, chars_json(s)]),
+        _ => json!([4, 0]),
+    }
+}
+
+/// Public struct fields that serde skips (velocity components of BDS 0,9 subtypes 1/2).
+fn observe_field(m: &Message, name: &str, scale: f64) -> Value {
+    let me = match &m.df {
+        DF::ExtendedSquitterADSB(adsb) => Some(&adsb.message),
+        DF::ExtendedSquitterTisB { cf, .. } => Some(&cf.me),
+        _ => None,
+    };
+    if let Some(ME::BDS09(v)) = me {
+        if let AirborneVelocitySubType::GroundSpeedDecoding(g) = &v.velocity {
+            return match name {
+                "ew_vel" => number(g.ew_vel, scale),
+                "ns_vel" => number(g.ns_vel, scale),
+                _ => json!([4, 0]),
+            };
+        }
+    }
+    json!([0, 0])
+}
+
+fn run(vectors: &str, out: &str) {
+    let mut tr = Trace::create(out);
+    let mut bad = 0usize;
+    for vec in read_lines(vectors) {
+        let fields: Vec<(u32, u64)> = vec["f"]
+            .as_array()
+            .expect("f")
+            .iter()
+            .map(|p| (p[0].as_u64().unwrap() as u32, p[1].as_u64().unwrap()))
+            .collect();
+        let overlay = vec["ov"].as_u64().unwrap_or(0) as u32;
+        let frame = seal(&pack(&fields), overlay);
+        let obs = vec["obs"].as_array().expect("obs").clone();
+        let decoded = catch_unwind(|| {
+            Message::try_from(frame.as_slice()).map(|m| {
+                let js = serde_json::to_value(&m).ok();
+                (m, js)
+            })
+        });
+        let mut v = Map::new();
+        let (outcome, json_ok) = match &decoded {
+            Ok(Ok((m, js))) => {
+                for o in &obs {
+                    let name = o[0].as_str().unwrap().to_string();
+                    let path = o[1].as_array().unwrap();
+                    let kind = o[2].as_str().unwrap();
+                    let scale = o[3].as_f64().unwrap();
+                    let val = if kind == "fld" {
+                        observe_field(m, path[0].as_str().unwrap(), scale)
+                    } else {
+                        match js {
+                            Some(j) => observe_json(j, path, kind, scale),
+                            None => json!([0, 0]),
+                        }
+                    };
+                    v.insert(name, val);
+                }
+                ("ok", js.is_some())
+            }
+            Ok(Err(_)) => ("err", false),
+            Err(_) => ("panic", false),
+        };
+        if outcome != "ok" {
+            for o in &obs {
+                v.insert(o[0].as_str().unwrap().to_string(), json!([0, 0]));
+            }
+        }
+        let ev = json!({
+            "k": vec["k"], "c": vec["c"], "f": vec["f"], "ov": vec["ov"], "s": vec["s"],
+            "hex": hex::encode(&frame), "out": outcome, "json": if json_ok { "ok" } else { "none" },
+            "v": Value::Object(v),
+        });
+        if !check(&ev) {
+            bad += 1;
+        }
+        tr.emit(ev);
+    }
+    tr.flush();
+    assert!(bad == 0, "{bad} events not representable in TLC");
+    println!("{}", tr.n);
+}
+
+fn probe(frames: &[String]) {
+    for h in frames {
+        let bytes = match hex::decode(h) {
+            Ok(b) => b,
+            Err(_) => {
+                println!("{h} BAD-HEX");
+                continue;
+            }
+        };
+        match catch_unwind(|| Message::try_from(bytes.as_slice())) {
+            Ok(Ok(m)) => println!(
+                "{} {}",
+                h,
+                serde_json::to_string(&m).unwrap_or_else(|e| format!("SERDE-ERR {e}"))
+            ),
+            Ok(Err(e)) => println!("{h} ERR {e}"),
+            Err(_) => println!("{h} PANIC"),
+        }
+    }
+}
+
+fn main() {
+    quiet_panics();
+    let args: Vec<String> = std::env::args().skip(1).collect();
+    match args.first().map(|s| s.as_str()) {
+        Some("run") => run(&args[1], &args[2]),
+        Some("probe") => probe(&args[1..]),
+        _ => eprintln!("usage: c03 run <vectors> <trace> | c03 probe <hex>..."),
     }
 }
